@@ -71,11 +71,48 @@ def const_ind(n) -> bool:
     return False
 
 
-def features(case) -> list[str]:
+def window_features(case) -> set[str]:
+    """Features of the WindowedChoose / MalleableChoose nodes of a case (none for the trees of the earlier rounds)."""
     f = set()
     g = case["gran"]
+    for n in gen.walk(case["tree"]):
+        if n["t"] == "wchoose":
+            f.add("wchoose")
+            if n["start"] < case["now"] <= n["end"]:
+                f.add("wchoose-window-opens-before-now")
+            if n["end"] % n["gran"] != 0:
+                f.add("wchoose-window-end-off-grid")
+            if n["gran"] != g:
+                f.add("wchoose-own-granularity")
+        if n["t"] == "mchoose":
+            f.add("mchoose")
+            if n["gran"] != g:
+                f.add("mchoose-own-granularity")
+        if n["t"] == "max" and any(c["t"] == "wchoose" for c in n["ch"]) and len(n["ch"]) >= 2:
+            f.add("wchoose-max-sibling")
+        if n["t"] == "lt":
+            below = [x for c in n["ch"] for x in gen.walk(c)]
+            if any(x["t"] == "mchoose" for x in below):
+                f.add("mchoose-under-lessthan")
+            if any(x["t"] == "max" and any(c["t"] == "wchoose" for c in x["ch"]) and len(x["ch"]) >= 2 for x in below):
+                f.add("lessthan-over-wchoose-max-sibling")
+    return f
+
+
+QUIRKS = {"wchoose-window-opens-before-now", "wchoose-window-end-off-grid", "wchoose-own-granularity", "mchoose-own-granularity"}
+
+
+def features(case) -> list[str]:
+    f = window_features(case)
+    g = case["gran"]
+    if f:
+        # unaligned / task-name features are those of the tree with every WindowedChoose written as Max over Chooses
+        case = oracle.desugar(case)
     nodes = list(gen.walk(case["tree"]))
-    starts = {n["start"] % g for n in nodes if n["t"] in ("choose", "alloc")}
+    starts = {n["start"] % g for n in nodes if n["t"] in ("choose", "alloc", "mchoose")}
+    for n in nodes:
+        if n["t"] == "mchoose":
+            starts |= {t % g for t in oracle.mslots(n)}
     if g > 1 and len(starts) > 1:
         f.add("unaligned-granularity")
     if g > 1:
@@ -99,11 +136,12 @@ def features(case) -> list[str]:
     # a task name may be shared by the alternatives under one Max, nowhere else
     groups = {}
 
-    def go(n, path, parent_kind):
-        if n["t"] == "choose":
-            groups.setdefault(n["name"], []).append(path[:-1] if parent_kind == "max" else path)
+    def go(n, path, maxroot):
+        # maxroot: path of the topmost Max of a chain of directly nested Max nodes (a desugared WindowedChoose is a Max)
+        if n["t"] in ("choose", "mchoose"):
+            groups.setdefault(n["name"], []).append(path if maxroot is None else maxroot)
         for i, c in enumerate(n.get("ch", [])):
-            go(c, path + (i,), n["t"])
+            go(c, path + (i,), (path if maxroot is None else maxroot) if n["t"] == "max" else None)
 
     go(case["tree"], (), None)
     if any(len(set(v)) > 1 for v in groups.values()):
@@ -293,17 +331,26 @@ class Batch:
                 c["passes"] = ps
                 jobs.append((f"{cid}/p{ps}", c, None))
         # the discretisation-selection pass is known to loop (C20-F8): those jobs run under the per-case watchdog
-        dumps = cxx.run([j for j in jobs if not j[1]["passes"] & 4], timeout=30 if tier == "quick" else 120)
-        dumps.update(cxx.run([j for j in jobs if j[1]["passes"] & 4], watchdog=True))
+        # and so is the critical-path pass over a WindowedChoose (C20-F10)
+        def risky(c):
+            return bool(c["passes"] & 4) or bool(c["passes"] & 1 and oracle.wchoose_nodes(c["tree"]))
+
+        dumps = cxx.run([j for j in jobs if not risky(j[1])], timeout=30 if tier == "quick" else 120)
+        dumps.update(cxx.run([j for j in jobs if risky(j[1])], watchdog=True))
         lean = {}
-        if self.use_lean:
+        # WindowedChoose / MalleableChoose / shared nodes are not in the Lean model: those cases go through the
+        # model-independent oracle (and the differential run with passes) only
+        modelled = {cid for cid, case in cases if self.use_lean and not oracle.has_window(case["tree"])}
+        if modelled:
             reqs = []
-            for _, case in cases:
+            for cid, case in cases:
+                if cid not in modelled:
+                    continue
                 r = dict(case)
                 # the Lean brute force is a plain product enumeration: only for small spaces
                 r["semopt"] = oracle.search_space(case) <= (3000 if tier == "quick" else 20000)
                 reqs.append(r)
-            for (cid, _), rep in zip(cases, common.run_driver(reqs)):
+            for cid, rep in zip([cid for cid, _ in cases if cid in modelled], common.run_driver(reqs)):
                 lean[cid] = rep
         plan = []  # (jobid, case, passes, model, [(kind, assignment)], opt)
         base_opt = {}
@@ -318,7 +365,7 @@ class Batch:
                     what = "compile:does-not-terminate" if cerr == "TIMEOUT" else "compile:crashes"
                     self.findings.append((signatures([what], feats, ps)[0], {"case": case, "passes": ps, "problems": [d["err"]]}))
                     continue
-                if ps == 0 and self.use_lean:
+                if ps == 0 and cid in modelled:
                     l = lean[cid]
                     if "protocol_error" in l:
                         raise RuntimeError(f"lean driver protocol error {l} on {json.dumps(case)}")
@@ -331,7 +378,7 @@ class Batch:
                     if chk is not None and ps == 0:
                         chk.case({"case": case, "err": cerr}, nontrivial=False)
                     continue
-                if ps == 0 and self.use_lean:
+                if ps == 0 and cid in modelled:
                     if not canon.var_names_unique(d):
                         self.count("skipped:duplicate-variable-names")
                         continue
@@ -356,13 +403,13 @@ class Batch:
             c = dict(case)
             c["passes"] = ps
             jobs2.append((jid, c, [a for _, a in assigns]))
-        back = cxx.run([j for j in jobs2 if not j[1]["passes"] & 4], timeout=30 if tier == "quick" else 120)
-        back.update(cxx.run([j for j in jobs2 if j[1]["passes"] & 4], watchdog=True))
+        back = cxx.run([j for j in jobs2 if not risky(j[1])], timeout=30 if tier == "quick" else 120)
+        back.update(cxx.run([j for j in jobs2 if risky(j[1])], watchdog=True))
         lean2 = {}
-        if self.use_lean:
+        if modelled:
             reqs, ids = [], []
             for jid, cid, case, ps, d, assigns, status, opt, feats in plan:
-                if ps != 0:
+                if ps != 0 or cid not in modelled:
                     continue
                 lv = [v["name"] for v in lean[cid]["vars"]]
                 pos = {v["name"]: i for i, v in enumerate(d["vars"])}
@@ -386,7 +433,7 @@ class Batch:
                     nontrivial = True
                 self.count(f"assignment:{kind}")
                 self.count("placements", len(root["placements"]))
-                if ps == 0 and self.use_lean:
+                if ps == 0 and cid in modelled:
                     lr = lean2[jid]["results"][k]
                     mine = {"placements": canon.canon_placements(root["placements"]), "utility": root["utility"], "objective": res["objective_value"]}
                     theirs = {"placements": canon.canon_placements(lr["root"]["placements"]), "utility": lr["root"]["utility"], "objective": lr["objective_value"]}
@@ -404,7 +451,7 @@ class Batch:
             # optimum against the brute force over schedules
             so = oracle.sem_opt(case)
             # two independent brute forces (Python oracle, Lean `optUtility`) must agree
-            if ps == 0 and self.use_lean and "semopt" in lean.get(cid, {}) and so is not None:
+            if ps == 0 and cid in modelled and "semopt" in lean.get(cid, {}) and so is not None:
                 self.count("semopt:lean-vs-python")
                 if lean[cid]["semopt"] != so:
                     raise RuntimeError(f"brute-force optimum: python {so} vs lean {lean[cid]['semopt']} on {json.dumps(case)}")
@@ -505,6 +552,14 @@ def run(chk: common.Check):
         cs = [(f"ltminfam-{k}-{i}", gen.lt_min_family(fr.sub(str(i)))) for i in range(min(100, n_lm - k))]
         b.run(rng.sub(f"lmfamrun{k}"), cs, chk.tier, passes_list=(0, 1, 3))
         chk.count("family:lt-over-min-of-mixed-durations", len(cs))
+    # 7. WindowedChoose / MalleableChoose trees (not in the Lean model: oracle + differential run with the pruning passes)
+    n_w = 40 if quick else 600
+    for k in range(0, n_w, 100):
+        fr = rng.sub(f"wfam{k}")
+        cs = [(f"winfam-{k}-{i}", gen.window_family(fr.sub(str(i)))) for i in range(min(100, n_w - k))]
+        b.run(rng.sub(f"wfamrun{k}"), cs, chk.tier, passes_list=(0, 1, 2, 3))
+        chk.count("family:windowed-and-malleable-choose", len(cs))
+        chk.count("family:windowed-and-malleable-choose:clean-trees", sum(1 for _, c in cs if not (window_features(c) & QUIRKS)))
     for sig, rep in b.findings:
         chk.violation(sig, rep)
     chk.extra["suite_s"] = round(time.time() - t0, 1)
@@ -515,7 +570,9 @@ def run(chk: common.Check):
                 "non-trivial = at least one placement was read back; distinct = hash of the canonical case")
     chk.assumptions += [
         "utilities and scale factors are integers (the C++ uses double; exact below 2^53)",
-        "uniform granularity, useOverlapConstraints=false; WindowedChoose / MalleableChoose / shared sub-expressions are not generated",
+        "uniform granularity, useOverlapConstraints=false; WindowedChoose / MalleableChoose trees (family 7) are judged by the model-independent oracle "
+        "and the differential run with passes only (they are not in the Lean model); shared sub-expressions are not generated; the reference semantics "
+        "of a WindowedChoose is Max over Choose at every multiple of its granularity in [startTime, endTime] (endTime = latest START, as the callers use it)",
         "optimisation passes are not modelled: covered by the differential run only (a test)",
         "Gurobi returns assignments that satisfy the dumped model (re-checked in Python for every assignment) and are optimal (cross-checked by exhaustive enumeration on tiny models)",
     ]
